@@ -35,7 +35,7 @@ MANIFEST = dict(
           "(Ok is returned only after the test resid <= tol, or < tol, succeeded on the recurrence vector). Over any field with ANY square-root function and a "
           "linear product: residual_invariant_{cg,bicg,bicgstab,qmr} (the recurrence vector equals b - A x at every exit, Ok or Err, for every budget -- hence at "
           "every iteration; QMR also s = A d), ok_means_solved (Ok => ||b - A x|| / ||b||' passes the code's test on the TRUE residual) and ok_means_solved_R "
-          "(over the reals: ||b - A x||_2 <= tol ||b||') and ok_means_solved_rows (the linearity hypothesis discharged for EVERY square matrix of EVERY order given as its list of rows). The float instance of the same definitions (CSC products of Model/Sparse.v, built by from_triplets) is "
+          "(over the reals: ||b - A x||_2 <= tol ||b||') and x_keeps_length is the fourth any-arithmetic theorem; ok_means_solved_rows (the linearity hypothesis discharged for EVERY square matrix of EVERY order given as its list of rows). The float instance of the same definitions (CSC products of Model/Sparse.v, built by from_triplets) is "
           "run against the implementation on systems of order <= 12; an oracle with an exact-rational residual judges every Ok answer up to order 60."),
     note=("The f64 drift of the residual recurrence and finiteness of x are NOT proved: they are searched with the allowance "
           "64(k+1)eps(||A|| X + ||b||)/||b||', X taken from the float model's trace. The exact-arithmetic theorems treat a division by zero as a panic "
@@ -67,8 +67,8 @@ def generate(rng, tier):
     cases = []
     quick = (tier == "quick")
     g = rng.fork("c08")
-    nsys_small = 90 if quick else 900
-    nsys_big = 40 if quick else 400
+    nsys_small = 90 if quick else 1400
+    nsys_big = 40 if quick else 600
     maxn = 40 if quick else 60
     def emit(n, fam, tag):
         ints = g.chance(2, 3)
